@@ -26,7 +26,12 @@ TRUSTED_BASE = [
     "Coq 8.16.1 kernel + vm_compute (bytecode VM) for evaluating the model on the cases",
     "harness/c15.py: recording child pools, scripted factory, MockClock driver, reading of the private sets "
     "_hatchery/_mortuary, strong references + gc.collect() to make the weak mortuary deterministic",
-    "model/Factory.v is hand-written; tied to src/cobald/composite/factory.py by the correspondence run only",
+    "model/Factory.v is hand-written; tied to src/cobald/composite/factory.py by the correspondence run and, for the "
+    "adjustment (run / _shrink / _grow / _reap_children / _release_child) and the readers and constructor (supply / "
+    "utilisation / allocation / demand / __init__), by translation: py2coq/units.py:gen_factory "
+    "(trusted, fail-closed: exact statement skeleton, transcribed expressions) regenerates gen/Gen_factory.v on every run and "
+    "props/C15_tie.v proves that kit/FactoryIR.v's meaning of that skeleton with the current source's expressions is "
+    "Factory.adjust / supply / utilisation / allocation / init",
     "ideal arithmetic: binary64 rounding is not modelled (cases use exact Fractions)",
 ]
 ASSUMPTIONS = [
@@ -564,3 +569,19 @@ def shrink(case, still_fails):
             except Exception:
                 pass
     return cur
+
+
+# ------------------------------------------------------------------ translator tie
+TIE_TARGETS = ["props/C15_tie.vo"]
+
+
+def regen(chk):
+    """regenerate gen/Gen_factory.v from the current composite/factory.py"""
+    import os
+    from . import common
+    from py2coq import units
+    res = units.regen(common.REPO, os.path.join(common.COQDIR, "gen"), ["Gen_factory.v"])
+    chk.coverage["translator"] = res
+    bad = [v for v in res.values() if v != "ok"]
+    if bad:
+        raise RuntimeError(bad[0])
